@@ -184,7 +184,7 @@ impl Ctx {
                 Update::Invalidated => ("Invalidated", json!(["none", 0, 0])),
             };
             let obs = c2.with(|t| t.observers[o - 1].first().cloned()).flatten();
-            let rd = obs.map_or(J::Null, |ob| read_json(ob.try_get_value()));
+            let rd = obs.map_or(json!(["gone", ""]), |ob| read_json(ob.try_get_value()));
             c2.with(|t| t.log.dlv.push((o, tc.get(), k.to_string(), v, rd)));
             c2.run_effects(&eff, 0);
         });
@@ -743,6 +743,9 @@ impl Session {
                         "C10"
                     };
                     out.push(Mismatch { prop, step, what: format!("observer {} reads {got} expected {want_norm}", i + 1) });
+                    if want[0] == "err" && (want[1] == "NeverStabilised" || want[1] == "CurrentlyStabilising") {
+                        out.push(Mismatch { prop: "C07", step, what: format!("observer {} reads {got} expected {want_norm}", i + 1) });
+                    }
                 }
             }
         }
@@ -799,7 +802,7 @@ impl Session {
                 }
             }
             for (o, tk, k, v, rd) in t.log.dlv.iter() {
-                if k != "Invalidated" && rd != &json!(["ok", v]) {
+                if k != "Invalidated" && rd[0] != "gone" && rd != &json!(["ok", v]) {
                     out.push(Mismatch { prop: "C09", step, what: format!("delivery ({o},{tk}) {k} {v} but observer read {rd}") });
                 }
             }
@@ -832,6 +835,13 @@ impl Session {
                         }
                     }
                 }
+            }
+        }
+        // C11: the public counter agrees with the number of needed nodes
+        if let (Some(want), Some(st)) = (e["necessary"].as_u64(), self.state.as_ref()) {
+            let got = st.stats().necessary as u64;
+            if got != want {
+                out.push(Mismatch { prop: "C11", step, what: format!("stats().necessary = {got} but {want} nodes are needed") });
             }
         }
         if let Some(want) = e["cut"].as_array() {
